@@ -542,6 +542,22 @@ func enumerateC10(c *Ctx, sc0 *Scenario) *enumResult {
 			sc.Plan.Peers[k] = &PeerPlan{PipeCap: -1}
 		}
 		sc.Plan.Peers[kind] = &PeerPlan{PipeCap: -1, Faults: []Fault{f}}
+		// the same fault point is met under three pipe regimes in turn:
+		// unbounded single writes, rendezvous with 1-byte writes, 4 KiB with torn lines
+		switch points % 3 {
+		case 1:
+			for _, k := range peerKinds {
+				sc.Plan.Peers[k].PipeCap = 0
+				sc.Plan.Peers[k].Chunks = []int{1}
+				sc.Plan.Peers[k].Yields = []int{1, 0, 2}
+			}
+		case 2:
+			for _, k := range peerKinds {
+				sc.Plan.Peers[k].PipeCap = 4096
+				sc.Plan.Peers[k].Chunks = []int{41, 0, 7}
+				sc.Plan.Peers[k].ReadChunks = []int{13, 0}
+			}
+		}
 		if v := runFaulted(c, &sc, site, base.Stdout, false); v != nil {
 			return &enumResult{&sc, v}
 		}
